@@ -5,6 +5,9 @@ From Coq Require Import ZArith List Bool Lia ZifyBool.
 From AQ Require Import lib.Base lib.Tok model.Codec model.Varint model.RangeSet model.AckFrame gen.C12Consts
   model.AckQueue proofs.CodecProofs proofs.VarintProofs proofs.RangeSetP proofs.AckFrameProofs.
 
+(* the two behaviours probed from the source stay symbolic in every proof: all lemmas hold for both values *)
+Global Opaque CAP_ACK_NOW PACING_LE.
+
 Definition pn_ok (x : Z) : Prop := 0 <= x < 2 ^ 62.
 
 (* what an op sequence must satisfy to be a behaviour of the code: packet numbers are what decode_packet_number
